@@ -372,6 +372,7 @@ def finish(mod, total, tier, seed, wall):
         "known_findings_hit": {fid: n for fid, (f, n) in known.items()},
         "violation_signatures": rc,
         "harness_errors": harness_errors[:5],
+        "notes": [n for n in total.notes if not n.startswith("HARNESS")][:40],
     }
     ev = {
         "property_id": pid,
